@@ -203,6 +203,11 @@ pub fn judge_owned(x: &Vec<u8>, st: &mut Stats) -> Verdict {
                     long_bytes.extend(fill(0x51, 300));
                     let mut short_bytes = crate::oracle::v2::SIG.to_vec();
                     short_bytes.extend_from_slice(&[0x20, 0x00, 0, 0]);
+                    // a clone of the owned copy is the header once more (also for the largest headers)
+                    let oc = o.clone();
+                    if !(oc == *h && *h == oc) || oc.as_bytes() != h.as_bytes() || oc.len() != h.len() || oc.tlv_bytes() != h.tlv_bytes() {
+                        return Err(Fail::new("owned-clone-differs:v2", shape2(x), "Header::to_owned().clone()", "a copy equal to the original with the same views", format!("original {} bytes, clone of the owned copy {} bytes", h.len(), oc.len())));
+                    }
                     let mut targets: Vec<ppp::v2::Header<'_>> = vec![o.clone()];
                     if let Ok(l) = ppp::v2::Header::try_from(&long_bytes[..]) {
                         targets.push(l.to_owned());
